@@ -109,11 +109,13 @@ package meta
 //@   ensures result != nil && result == origModOf(m)
 
 // a compiled list knows the leafs that make up its key (the compiler fails on a key name it cannot resolve)
+//@ pure keyMetaOf(y *List) []Leafable
 //@ func (y *List) KeyMeta() []Leafable
 //@   trusted
 //@   assigns nothing
 //@   noalloc
-//@   ensures forall k int :: 0 <= k && k < len(result) ==> result[k] != nil
+//@   ensures result === keyMetaOf(y)
+//@   ensures forall k int :: 0 <= k && k < len(result) ==> solid(result[k])
 
 // ---- C02 / C05: how a derived type combines with its base (typedef chain) ------------------------------------
 // restrictions accumulate: the derived type keeps its own ranges / lengths / bits and gains every one of the base,
